@@ -650,6 +650,62 @@ func runC14(c *h.Ctx) {
 	// follows the nested subscript [i]; the last it mentions belongs to the
 	// subscript of $.a that encloses it
 	checkLastScope(c, "last.scope")
+	// [*] is not a subscript: in $.a[$.b[*] ? (@ == last)] last is a's, under
+	// either reading
+	{
+		k := 0
+		for n := 2; n <= 5; n++ {
+			for m := 1; m <= 4; m++ {
+				for hit := -1; hit < m; hit++ {
+					for _, form := range []string{"$.a[$.b[*] ? (@ == last)]", "strict $.a[$.b[*] ? (@ == last)]", "$.a[$.b[*] ? (@ == last - 1) + 1]", "$.a[0, $.b[*] ? (@ >= last)]"} {
+						k++
+						if !c.Mine(k) {
+							continue
+						}
+						as, bs := make([]string, n), make([]string, m)
+						for j := range as {
+							as[j] = fmt.Sprint(10 * (j + 1))
+						}
+						for j := range bs {
+							bs[j] = "-7"
+						}
+						val := n - 1
+						if strings.Contains(form, "last - 1") {
+							val = n - 2
+						}
+						if hit >= 0 {
+							bs[hit] = fmt.Sprint(val)
+						}
+						docText := fmt.Sprintf(`{"a":[%s],"b":[%s]}`, strings.Join(as, ","), strings.Join(bs, ","))
+						o := h.Call("query", cachedPath(form), h.Decode(docText, k%2 == 0), h.Opts{})
+						c.Eval(1)
+						c.Distinct(form, docText)
+						var want []string
+						if strings.Contains(form, "[0, ") {
+							want = append(want, "#10")
+						}
+						wantErr := hit < 0
+						if !wantErr {
+							want = append(want, "#"+as[n-1])
+						}
+						got := ""
+						if o.Class == h.OK {
+							gs := make([]string, len(o.Items))
+							for j, it := range o.Items {
+								gs[j] = canonJSON(it)
+							}
+							got = strings.Join(gs, " | ")
+						}
+						if (wantErr && o.Class != h.Soft) || (!wantErr && (o.Class != h.OK || got != strings.Join(want, " | "))) {
+							c.Violate("last", h.F("cause", "unexplained", "form", "wildcard-then-filter"), fmt.Sprintf("Query(%s) on %s = %s; last is the last index of $.a (%d): [%s] (error: %v)", form, docText, o.Summary(), n-1, strings.Join(want, " | "), wantErr), h.Case{Kind: "nested", Path: form, Doc: docText})
+						} else {
+							c.Held("last")
+						}
+					}
+				}
+			}
+		}
+	}
 	// strict mode below .**: only member accessors skip what they do not apply
 	// to; a subscript on a non-array stays the structural error, it does not
 	// turn the value into a one-element array (that is lax mode)
@@ -690,12 +746,12 @@ func runC14(c *h.Ctx) {
 	for _, b := range bad {
 		for _, d := range docs {
 			for _, lax := range []bool{true, false} {
-				for _, form := range []string{"$[%s]", "$[0, %s]", "$[%s to 1]", "$[0 to %s]"} {
+				for _, form := range []string{"$[%s]", "$[0, %s]", "$[%s to 1]", "$[0 to %s]", "$[7 to %s]", "$[last + 1 to %s]", "$[0, 9 to %s]", "$[%s to %s]"} {
 					idx++
 					if !c.Mine(idx) {
 						continue
 					}
-					ptxt := fmt.Sprintf(form, b)
+					ptxt := strings.ReplaceAll(form, "%s", b)
 					if !lax {
 						ptxt = "strict " + ptxt
 					}
